@@ -301,6 +301,7 @@ let depth_eq0 (a : depth) (b : depth) =
   int_of_n a.d_env = int_of_n b.d_env && int_of_n a.d_stk = int_of_n b.d_stk && list_eq a.d_bind b.d_bind && sel_eq a.d_sel b.d_sel
 let depth_eq (a : depth2) (b : depth2) = depth_eq0 a.d2_base b.d2_base && int_of_n a.d2_iter = int_of_n b.d2_iter
 
+let lenient_table : (int, depth2 list) Hashtbl.t ref = ref (Hashtbl.create 1)
 let lenient_infer ?(no_exc = false) (cb : codeblock) : (edge * n * depth2 * depth2) list * (n * depth2 * int list) list * (Stdlib.String.t * Stdlib.String.t) list =
   let a : (int, depth2 list) Hashtbl.t = Hashtbl.create 64 in
   let get pc = try Hashtbl.find a pc with Not_found -> [] in
@@ -380,6 +381,7 @@ let lenient_infer ?(no_exc = false) (cb : codeblock) : (edge * n * depth2 * dept
                         | _ -> ((e', pc'), d') in
                       work := List.map (fun x -> (fix x, path')) l @ !work)))
   done;
+  lenient_table := a;
   (List.rev !merges, List.rev !stucks, List.rev !residues)
 
 (* ---------- structural lint: finally dispatch with duplicate selector ----------
@@ -483,6 +485,7 @@ let verify_block (b : blk) : vblk =
   List.iter (fun m -> add "instruction-does-not-match-signature" m) (List.rev b.decode_errs);
   if List.length b.consts <> b.nconsts then add "dump-inconsistent" "const count";
   if List.length b.hs <> b.nhandlers then add "dump-inconsistent" "handler count";
+  lenient_table := Hashtbl.create 1;
   let (annot, ierrs) = infer_full2 cb in
   let fp =
     if b.fp_override >= 0 then Some b.fp_override
@@ -492,7 +495,9 @@ let verify_block (b : blk) : vblk =
       | _ -> if Hashtbl.mem native_children b.bid then Some 0 else None in
   let scopes = List.rev_map scope_of_string b.bind_scopes in
   let loc_ok = (match fp with Some f -> locators_ok cb scopes (n_of_int f) annot | None -> true) in
-  let v = b.decode_errs = [] && verify2 cb && loc_ok in
+  let agree_ok = nonstack_agree cb annot in
+  let v23 = b.decode_errs = [] && verify2 cb && loc_ok in
+  let v = v23 && agree_ok in
   (* closures this block creates: GetFunction { dst, index } at absolute depth fp + relative depth *)
   (match fp with
    | Some f ->
@@ -581,6 +586,30 @@ let verify_block (b : blk) : vblk =
                           (match scope_of scopes bi with Some n -> string_of_int (int_of_n n) | None -> "?")
                           (f + int_of_n d.d2_base.d_env) f (int_of_n d.d2_base.d_env))) (binds_of i)) (aget2 annot i.i_pc)) b.ins
    | _ -> ());
+  (* depths other than the value stack must not depend on the pending-completion selectors (DeepMerge_C03.v) *)
+  let across ?(env_only = false) tbl_get src =
+    List.iter (fun i ->
+        let ds : depth2 list = tbl_get i.i_pc in
+        let drain = in_drain cb i.i_pc in
+        (match ds with
+         | d0 :: rest ->
+             (match List.find_opt (fun d -> if env_only then int_of_n d0.d2_base.d_env <> int_of_n d.d2_base.d_env else not (same_nonstack drain d0 d)) rest with
+              | Some d when List.length !errs < 60 ->
+                  let what = if int_of_n d0.d2_base.d_env <> int_of_n d.d2_base.d_env then "environment"
+                    else if not (list_eq d0.d2_base.d_bind d.d2_base.d_bind) then "binding" else "iterator" in
+                  add (what ^ "-depth-differs-across-completions")
+                    (Printf.sprintf "%spc=%d %s reached with %s and %s" src (int_of_n i.i_pc) (opname i.i_op) (show_depth2 d0) (show_depth2 d))
+              | _ -> ())
+         | [] -> ())) b.ins in
+  if v23 && not agree_ok then across (fun pc -> aget2 annot pc) ""
+  else if not v23 then begin
+    (* the block is rejected for another reason (typically handler-entry residue, which also perturbs the selectors): look at
+       normal control flow alone, where break / continue / return records travel to their finally blocks *)
+    ignore (lenient_infer ~no_exc:true cb);
+    (* only the environment depth is reported here: iterator / binding disagreements of such blocks are consequences of the
+       residue classes already reported for them *)
+    across ~env_only:true (fun pc -> try Hashtbl.find !lenient_table (int_of_n pc) with Not_found -> []) "[normal control flow only] "
+  end;
   let dup = duplicate_selector_lint cb in
   let errs = List.rev !errs in
   (* consequences of a duplicated selector (a `continue` executed as `return` pops a value that was never pushed) *)
